@@ -46,6 +46,49 @@ class Eval:
         base, path = ir.field_path(self.m, self.f, o)
         return (base, path)
 
+    def table_load(self, i):
+        """value of a load from a constant table at an evaluated index: (value,) or None"""
+        from . import tables
+        o = i.ops[0]
+        idxs = []
+        g = None
+        depth = 0
+        while depth < 8:
+            depth += 1
+            if o[0] == "i":
+                d = self.f.insts[o[1]]
+                if d.op == "bitcast":
+                    o = d.ops[0]
+                    continue
+                if d.op == "getelementptr":
+                    idxs = [self.val(x) for x in d.ops[2:]] + idxs
+                    if self.val(d.ops[1]) != 0:
+                        return None
+                    o = d.ops[0]
+                    continue
+                return None
+            if o[0] == "g":
+                g = o[1]
+                break
+            if o[0] == "ce" and o[1] == "getelementptr":
+                idxs = [x[1] for x in o[3][2:]] + idxs
+                o = o[3][0]
+                continue
+            return None
+        if g is None or g not in self.m.globals or not self.m.globals[g]["const"]:
+            return None
+        v = tables.Tables(self.m).get(g)
+        for ix in idxs:
+            if not isinstance(v, list) or not (0 <= ix < len(v)):
+                raise AnalysisBroken("%s reads constant table %s out of range at %s" % (self.f.name, g, i.where()))
+            v = v[ix]
+        if isinstance(v, list):
+            return None
+        if isinstance(v, float):
+            return (v,)
+        w = _w(i.type) or 64
+        return (v & ((1 << w) - 1),)
+
     def run(self, max_blocks=200):
         f = self.f
         b = f.blocks[0]
@@ -127,7 +170,10 @@ class Eval:
             self.vals[i.id] = ("ptr", i.id)
         elif op == "load":
             k = self.ptr_key(i.ops[0])
-            if k not in self.mem:
+            tv = self.table_load(i) if k not in self.mem else None
+            if tv is not None:
+                self.vals[i.id] = tv[0]
+            elif k not in self.mem:
                 mk = self.models.get(("load",) + (k[0],))
                 if mk is None:
                     raise AnalysisBroken("%s loads memory that no model defines (%s at %s)" % (self.f.name, k, i.where()))
